@@ -15,7 +15,7 @@ R05.3 multistream: the per-stream budget is clamped to the size of the scratch
 R05.4 the constants agree: scratch copies of the coder buffer have 1275 bytes
       = CELT's byte cap = (Opus cap 1276) - 1.
 """
-from .. import sx, cfg as cfgm, guards, templates as T, absint
+from .. import sx, cfg as cfgm, guards, templates as T, absint, decide
 from ..guards import I
 from ..compdb import AnalysisBroken
 
@@ -39,6 +39,8 @@ def setup(rep, tier):
     rep.minimum('R05.2', 7)
     rep.minimum('R05.3', 4)
     rep.minimum('R05.4', 3)
+    rep.minimum('R05.5', 3)
+    rep.minimum('R05.6', 1)
 
 
 def local_key(f, name):
@@ -305,7 +307,177 @@ def r05_4(rep, prog):
     (rep.holds if ok else rep.violated)('R05.4', '%s:CELT byte cap = Opus cap - 1 (TOC byte)' % prog.config, None, 'celt %d opus %d' % (celt_cap, opus_cap), **({} if ok else {'key': 'caps'}))
 
 
+def _reads_only_use_vbr(e):
+    """the expression reads no encoder state other than st->use_vbr (and reads it)"""
+    flds = [n for n in sx.walk(e) if sx.kind(n) == 'field']
+    return bool(flds) and all(n[3] == 'use_vbr' or (n[3] in ('silk_mode',)) and False for n in flds)
+
+
+def r05_5(rep, prog):
+    """CBR padding is keyed on the user's VBR setting.  (a) every pad-to-limit
+    action of the Opus encoder is controlled by `!st->use_vbr` (directly, or
+    through a local whose every definition is 0 or reads only use_vbr);
+    (b) the per-frame mirror silk_mode.useCBR is read in the Opus layer only
+    after being re-derived in the same function (it is deliberately cleared
+    for hybrid frames, so a stale read decides CBR padding from history)."""
+    for fname in ('opus_encode_native', 'opus_encode_frame_native'):
+        f = prog.fn(fname)
+        rep.functions.add(fname)
+        cf = cfgm.CFG(f)
+        for b, i, n in T.calls_to(cf, ('opus_packet_pad',)):
+            where = '%s:%s' % (f.file, sx.line(n))
+            inst = '%s:%s pads to the limit only when VBR is off' % (prog.config, fname)
+            ok = False
+            seen = []
+            for cond, pol, gb in cfgm.guards_of(cf, b):
+                if cond is None or pol is None:
+                    continue
+                c = sx.strip(cond)
+                neg = False
+                while sx.kind(c) == 'un' and c[1] == '!':
+                    neg = not neg
+                    c = sx.strip(c[2])
+                seen.append(sx.show(cond)[:40])
+                # direct: !st->use_vbr taken true  /  st->use_vbr taken false
+                if sx.kind(c) == 'field' and c[3] == 'use_vbr' and c[2] == 'OpusEncoder' and (pol != neg) is False:
+                    ok = True
+                if sx.kind(c) == 'local' and pol and not neg:
+                    defs = []
+                    for m in f.all_nodes():
+                        if m[0] == 'assign' and sx.kind(m[1]) == 'local' and m[1][2] == c[2]:
+                            defs.append(m[2])
+                        if m[0] == 'decls':
+                            defs += [d[3] for d in m[1] if d[0] == 'decl' and d[2] == c[2] and d[3] is not None]
+                    good = [d for d in defs if sx.int_val(d) == 0 or (sx.kind(sx.strip(d)) == 'un' and sx.strip(d)[1] == '!' and _reads_only_use_vbr(d))]
+                    if defs and len(good) == len(defs) and any(sx.int_val(d) is None for d in defs):
+                        ok = True
+            if ok:
+                rep.holds('R05.5', inst, where, 'controlled by %s' % seen[:3])
+            else:
+                rep.violated('R05.5', inst, where, 'the call is not controlled by !st->use_vbr (controlling conditions: %s)' % seen[:4], key='%s:pad-guard' % fname)
+    # (b) reads of the mirror in src/ functions
+    nreads = 0
+    for f in prog.functions_all:
+        if not f.file.startswith('src/'):
+            continue
+        cf = None
+        reads = []
+        for n in f.all_nodes():
+            if sx.kind(n) == 'field' and n[3] == 'useCBR' and sx.kind(sx.strip(n[1])) == 'field' and sx.strip(n[1])[3] == 'silk_mode':
+                reads.append(n)
+        if not reads:
+            continue
+        cf = cfgm.CFG(f)
+        store_ids = set()
+        store_pos = []
+        for b, i, m in cf.find(lambda m: m[0] == 'assign'):
+            lv = sx.strip_paren(m[1])
+            if sx.kind(lv) == 'field' and lv[3] == 'useCBR':
+                store_ids.add(id(lv))
+                store_pos.append((b, i))
+        for b, i, m in cf.find(lambda m: sx.kind(m) == 'field' and m[3] == 'useCBR'):
+            if id(m) in store_ids:
+                continue
+            nreads += 1
+            where = '%s:%s' % (f.file, sx.line(m) or f.line)
+            inst = '%s:%s reads silk_mode.useCBR only after re-deriving it' % (prog.config, f.name)
+            if any(cf.pos_dominates(sp, (b, i)) and sp != (b, i) for sp in store_pos):
+                rep.holds('R05.5', inst, where, 'dominated by an assignment in the same function')
+            else:
+                rep.violated('R05.5', inst, where, 'silk_mode.useCBR is a per-frame mirror of !use_vbr (cleared for hybrid frames); this read sees the value left by an earlier frame',
+                             key='%s:stale-useCBR' % f.name)
+    if not nreads:
+        rep.holds('R05.5', '%s:silk_mode.useCBR is not read by the Opus layer' % prog.config, None, None)
+
+
+def r05_6(rep, prog):
+    """OPUS_BITRATE_MAX fills the buffer: the rate derived from max_data_bytes
+    converts back to at least max_data_bytes CBR bytes for every legal
+    (Fs, frame duration).  The two conversion expressions are taken from the
+    source (the BITRATE_MAX return of user_bitrate_to_bitrate and the cbr_bytes
+    computation of opus_encode_native) and evaluated over their whole finite
+    domain - value-set analysis partitioned per (Fs, duration, max_data_bytes)."""
+    u = prog.fn('user_bitrate_to_bitrate')
+    n = prog.fn('opus_encode_native')
+    rep.functions.update({u.name, n.name})
+    cu = cfgm.CFG(u)
+    pm, pf = u.param_index('max_data_bytes'), u.param_index('frame_size')
+    rets = [(b, s) for b, i, s in T.returns_of(cu) if s[1] is not None and decide.mentions(s[1], lambda x: sx.key(x) == ('param', pm))]
+    if len(rets) != 1 or pm is None or pf is None:
+        rep.unresolved('R05.6', 'user_bitrate_to_bitrate: expected one return depending on max_data_bytes, found %d' % len(rets), u.where())
+        return
+    rb, rs = rets[0]
+    facts = [a for a, gb in guards.facts_at(cu, rb)]
+    if not any(a[0] == '==' and a[2] == ('int', -1) and isinstance(a[1], tuple) and a[1][0] == 'field' and a[1][2] == 'user_bitrate_bps' for a in facts):
+        rep.unresolved('R05.6', 'the max_data_bytes-dependent return is not the OPUS_BITRATE_MAX arm (facts %s)' % [T.show_atom(a) for a in facts], u.where())
+        return
+    e_rate = rs[1]
+    fr12 = decide.find_assign(n, 'frame_rate12')
+    cbr = decide.find_assign(n, 'cbr_bytes', lambda e: sx.int_val(e) is None)
+    if len(fr12) != 1 or len(cbr) != 1:
+        rep.unresolved('R05.6', 'opus_encode_native: frame_rate12 / cbr_bytes definitions not found (%d, %d)' % (len(fr12), len(cbr)), n.where())
+        return
+    mm = T_minmax(cbr[0][1])
+    pmax = n.param_index('max_data_bytes')
+    locmax = [l for l in n.locals.values() if l['name'] == 'max_data_bytes']
+    if not mm or mm[0] != 'min':
+        rep.unresolved('R05.6', 'cbr_bytes is not IMIN(bytes(rate), max_data_bytes): %s' % sx.show(cbr[0][1])[:80], n.where())
+        return
+    e_bytes = mm[1] if decide.mentions(mm[1], lambda x: sx.kind(x) == 'field' and x[3] == 'bitrate_bps') else mm[2]
+    kFs_u = ('field', ('param', 0), 'Fs')
+    kfr12 = sx.key(fr12[0][0])
+    kbr = ('field', ('param', 0), 'bitrate_bps')
+    pfn = n.param_index('frame_size')
+    bad = None
+    cases = 0
+    durations_400 = (1, 2, 4, 8, 16, 24, 32, 40, 48)     # 2.5 .. 120 ms in units of Fs/400
+    for Fs in (8000, 12000, 16000, 24000, 48000):
+        for d in durations_400:
+            fs_ = Fs * d // 400
+            f12 = decide.ev3(fr12[0][1], {kFs_u: Fs, ('param', pfn): fs_})
+            if not f12:
+                rep.unresolved('R05.6', 'cannot evaluate frame_rate12 for Fs=%d frame_size=%d' % (Fs, fs_))
+                return
+            for m in range(1, 1277):
+                cases += 1
+                rate = decide.ev3(e_rate, {kFs_u: Fs, ('param', pf): fs_, ('param', pm): m})
+                if rate is None:
+                    rep.unresolved('R05.6', 'cannot evaluate the BITRATE_MAX rate expression `%s`' % sx.show(e_rate))
+                    return
+                by = decide.ev3(e_bytes, {kbr: rate, kfr12: f12})
+                if by is None:
+                    rep.unresolved('R05.6', 'cannot evaluate the cbr_bytes expression `%s`' % sx.show(e_bytes)[:80])
+                    return
+                if by < m and bad is None:
+                    bad = (Fs, fs_, m, rate, by)
+    where = '%s:%s' % (u.file, sx.line(rs))
+    inst = '%s:OPUS_BITRATE_MAX rate converts back to >= max_data_bytes CBR bytes' % prog.config
+    if bad:
+        rep.violated('R05.6', inst, where, 'Fs=%d frame_size=%d max_data_bytes=%d: rate `%s` = %d gives cbr_bytes %d < %d - the packet does not fill the buffer' %
+                     (bad[0], bad[1], bad[2], sx.show(e_rate), bad[3], bad[4], bad[2]), key='bitrate-max-roundtrip')
+    else:
+        rep.holds('R05.6', inst, where, 'all %d (Fs, duration, max_data_bytes) partitions: bytes(rate(m)) >= m' % cases, n=cases)
+
+
+def T_minmax(e):
+    e = sx.strip(e)
+    if sx.kind(e) != 'cond':
+        return None
+    c = sx.strip(e[1])
+    if sx.kind(c) != 'bin' or c[1] not in ('<', '>', '<=', '>='):
+        return None
+    a, b = sx.key(sx.strip(c[2])), sx.key(sx.strip(c[3]))
+    x, y = sx.key(sx.strip(e[2])), sx.key(sx.strip(e[3]))
+    if (x, y) == (a, b):
+        return ('min' if c[1] in ('<', '<=') else 'max', sx.strip(c[2]), sx.strip(c[3]))
+    if (x, y) == (b, a):
+        return ('max' if c[1] in ('<', '<=') else 'min', sx.strip(c[2]), sx.strip(c[3]))
+    return None
+
+
 def check(rep, prog, tier):
+    r05_5(rep, prog)
+    r05_6(rep, prog)
     r05_native(rep, prog)
     r05_frame(rep, prog)
     r05_3(rep, prog)
